@@ -97,6 +97,26 @@ int main() {}
         obs.append(Ob(id='C17.static.accept.%02d_%s_%s_to_%s' % (i, crep.replace('_t', ''), p, trep.replace('_t', '')), prop='C17', group='C17.static', prelude='', wrappers=[], inputs=[], body=src, kind='S',
                       contract='static fact: duration<%s, %d/%d> is implicitly convertible to / constructible into Quantity<%s, %s> exactly when Quantity<seconds*%d/%d, %s> is'
                                % (crep, n_, d_, tu, trep, n_, d_, crep), functions_under_contract=('au::Quantity::Quantity(T&&) [corresponding quantity] (compile-time)',)))
+    # value category / cv-qualification of the duration must not matter: const, reference and rvalue durations are accepted exactly like plain ones
+    CVH = '''#include <chrono>
+#include <type_traits>
+#include <utility>
+#include "au/chrono_interop.hh"
+#include "au/units/seconds.hh"
+#define VF_STATIC_FACT(c) static_assert(c, "VF_STATIC_FACT")
+using D = std::chrono::milliseconds;
+using Q = au::Quantity<au::Milli<au::Seconds>, D::rep>;
+VF_STATIC_FACT((std::is_convertible<D, Q>::value && std::is_convertible<const D, Q>::value && std::is_convertible<D &, Q>::value && std::is_convertible<const D &, Q>::value && std::is_convertible<D &&, Q>::value && std::is_convertible<const D &&, Q>::value));
+VF_STATIC_FACT((std::is_same<au::CorrespondingQuantityT<const D>, au::CorrespondingQuantityT<D>>::value));
+VF_STATIC_FACT((std::is_same<decltype(au::as_quantity(std::declval<D>())), Q>::value && std::is_same<decltype(au::as_quantity(std::declval<const D>())), Q>::value));
+VF_STATIC_FACT((std::is_same<decltype(au::as_quantity(std::declval<const D &>())), Q>::value && std::is_same<decltype(au::as_quantity(std::declval<D &>())), Q>::value));
+VF_STATIC_FACT((std::is_same<decltype(std::declval<const D>() + std::declval<Q>()), decltype(std::declval<D>() + std::declval<Q>())>::value));
+VF_STATIC_FACT((std::is_same<decltype(std::declval<Q>() < std::declval<const D>()), bool>::value));
+int main() {}
+'''
+    obs.append(Ob(id='C17.static.cv-and-value-category', prop='C17', group='C17.static', prelude='', wrappers=[], inputs=[], body=CVH, kind='S',
+                  contract='static facts: D, const D, D&, const D&, D&&, const D&& (D = std::chrono::milliseconds) all convert implicitly to the corresponding quantity; as_quantity and the mixed '
+                           'operators accept const rvalues', functions_under_contract=('au::CorrespondingQuantity<const T> / as_quantity (compile-time)',)))
     # mixed duration / quantity operations agree with chrono itself
     mixed = [('i64', 'milli', 'sec'), ('i64', 'nano', 'milli'), ('i64', 'pico', 'nano'), ('i32', 'milli', 'sec'), ('i64', 'sec', 'hour'), ('i64', 'ntsc', 'milli'), ('i32', 'sec', 'min')]
     if tier == 'thorough': mixed += [('i64', 'micro', 'min'), ('i64', 'sixtieth', 'ntsc'), ('i32', 'min', 'hour'), ('i64', 'day', 'sec')]
